@@ -51,7 +51,8 @@ type vSimPlan struct {
 	Label          string      `json:"label"`
 	Key            string      `json:"key"`
 	Proto          int         `json:"proto"`
-	Reclaim        int64       `json:"reclaim"` // ms
+	Reclaim        int64       `json:"reclaim"`    // ms
+	GossipDead     int64       `json:"gossipDead"` // ms; 0 = the family's value
 	Events         []vSimEvent `json:"events"`
 	EndAt          int64       `json:"endAt"`
 	Settle         int64       `json:"settle"`
@@ -98,6 +99,9 @@ func (v *vSim) conf(nd *vSimNode) *Config {
 		c.TCPTimeout = 2 * time.Second
 	default:
 		c = DefaultLANConfig()
+	}
+	if p.GossipDead > 0 {
+		c.GossipToTheDeadTime = time.Duration(p.GossipDead) * time.Millisecond
 	}
 	c.Name = nd.name
 	c.BindPort = 7946
